@@ -803,6 +803,36 @@ static void mutate_checks(Node *t, const unsigned char *E) {
 		else if (el->ftlv.hdr_len + el->ftlv.dat_len != n || memcmp(el->ptr, exp, n)) vh_viol("element.detach:wrong-encoding", tdesc, "after edits and KSI_TlvElement_detach the element holds %zu bytes, reference %zu (or bytes differ)", el->ftlv.hdr_len + el->ftlv.dat_len, n);
 		else vh_count("edit_roundtrips_ok", 1);
 	}
+	/* replace a child that is present (by preference not the first one) through setElement: the new value takes the place of the old one, every other
+	 * child stays where it was */
+	if (rc == KSI_OK) {
+		size_t c2 = (size_t)-1, k2; Node *old2, *nw; KSI_TlvElement *ne; static const size_t lens[5] = {0, 1, 3, 40, 300}; unsigned char pay[300]; size_t pl = lens[vh_below(5)];
+		for (k2 = t->nk; k2-- > 0; ) { int uniq = 1; for (j = 0; j < t->nk; j++) if (j != k2 && t->kid[j]->tag == t->kid[k2]->tag) uniq = 0; if (uniq) { c2 = k2; if (k2 > 0 && vh_below(4)) break; } }
+		if (c2 != (size_t)-1) {
+			for (j = 0; j < pl; j++) pay[j] = (unsigned char)(0x41 + (j + c2) % 23);
+			old2 = t->kid[c2];
+			nw = leaf_new(old2->tag, old2->nc, old2->fwd, pay, pl);
+			measure(nw);
+			case_sub(" edit: replace child %zu of %zu (tag 0x%x) by a value of %zu octets", c2, t->nk, old2->tag, pl);
+			ne = build_el(nw);
+			if (ne) {
+				int rc3 = KSI_TlvElement_setElement(el, ne);
+				vh_eval++;
+				KSI_TlvElement_free(ne);
+				t->kid[c2] = nw; measure(t);
+				if (rc3 != KSI_OK) { if (t->fits) vh_viol("element.setElement:replace-child:refused", tdesc, "KSI_TlvElement_setElement(tag 0x%x, present once) res=0x%x", nw->tag, rc3); }
+				else if (t->fits) {
+					unsigned char *e2 = malloc(t->elen + 8), *buf; o = enc(t, e2, NULL); n = (size_t)(o - e2);
+					buf = out_get(n, n); l = 0; rc3 = KSI_TlvElement_serialize(el, buf, n, &l, 0);
+					judge("element.edit", "KSI_TlvElement_setElement(replace)+KSI_TlvElement_serialize", 0, e2, n, 0, 0, n, rc3, buf, l); out_put();
+					vh_count(c2 == 0 ? "edit_replaced_first_child" : "edit_replaced_later_child", 1);
+					free(e2);
+				}
+				t->kid[c2] = old2; measure(t);
+			}
+			free(nw->pl); free(nw);
+		}
+	}
 	/* restore the original child order */
 	t->nk--; memmove(&t->kid[pick + 1], &t->kid[pick], (t->nk - pick) * sizeof *t->kid); t->kid[pick] = removed; t->nk++; measure(t);
 	free(exp);
